@@ -520,8 +520,8 @@ class HyReader(Reader):
 
     def read_fcomponents_until(self, closing, prefix, fstring_mode):
         components = []
-        start = self.pos
         while True:
+            start = self.pos
             s, closed = self.read_chars_until(closing, prefix, fstring_mode=fstring_mode)
             if s:
                 components.append(self.fill_pos(String(s), start))
